@@ -21,7 +21,7 @@ Alphabet == {"..", ".", "", "A", "B", "...", "A..B", "destZ", "E.."}    \* destZ
 Eff(c) == IF c = "E.." THEN ".." ELSE c
 PlainNames == {"A", "B", "...", "A..B", "destZ"}
 Stems == {"S", "..", ".", "", "A..B"}
-DestShapes == {"abs", "rel", "trailing", "dotdot", "dotdot2"}
+DestShapes == {"abs", "rel", "trailing", "dot", "dotdot", "dotdot2"}
 Kinds == {"file", "dir", "nested"}
 \* extension of a nested archive: plain, or compound ("<stem>.tar.gz", "<stem>.TAR.zip").  The directory a nested archive is
 \* unpacked into is its file name without the LAST extension: "..tar.gz" unpacks into "...tar", an ordinary name.
@@ -45,6 +45,7 @@ Spec == Init /\ [][Next]_vars
 Dest == CASE destShape = "abs" -> [abs |-> TRUE, comps |-> <<"R", "dest">>]
           [] destShape = "trailing" -> [abs |-> TRUE, comps |-> <<"R", "dest", "">>]
           [] destShape = "rel" -> [abs |-> FALSE, comps |-> <<"reldest">>]
+          [] destShape = "dot" -> [abs |-> FALSE, comps |-> <<".">>]                \* the working directory itself
           [] destShape = "dotdot" -> [abs |-> FALSE, comps |-> <<"..">>]            \* relative destinations made only of parent references
           [] destShape = "dotdot2" -> [abs |-> FALSE, comps |-> <<"..", "..">>]
 \* the name of the directory a nested archive "<stem>.<ext>" is unpacked into
@@ -56,11 +57,13 @@ EntryComps == IF kind = "nested" THEN Append(comps, IF ext = "zip" THEN stem ELS
 \* the joined path is cleaned with the names as they are in the archive, and only then converted
 Converted(p) == [abs |-> p.abs, comps |-> [i \in 1..Len(p.comps) |-> Eff(p.comps[i])]]
 Target == Converted(Clean(Join(Dest, [abs |-> FALSE, comps |-> EntryComps])))
-EntryEscapes == ~Inside(Target, Dest)
+\* (a relative destination: what remains in front of the target after the destination's own components must not be a parent reference)
+Beyond(p, d) == LET cp == Clean(p) cd == Clean(d) IN Len(cp.comps) > Len(cd.comps) /\ cp.comps[Len(cd.comps) + 1] = ".."
+EntryEscapes == ~Inside(Target, Dest) \/ Beyond(Target, Dest)
 \* a nested archive "<stem>.zip" at path P is unpacked into Dir(P)/<stem>; its content lands beneath that
 NestedRoot == Join(Dir(Clean(Join(Dest, [abs |-> FALSE, comps |-> comps \o <<"X">>]))), [abs |-> FALSE, comps |-> <<RootName>>])
 NestedEscapes == kind = "nested" /\ ~Inside(NestedRoot, Dest)
-Escapes == ~Inside(Target, Dest) \/ NestedEscapes
+Escapes == EntryEscapes \/ NestedEscapes
 
 \* sanity of the algebra
 CleanIdempotent == Clean(Clean(Target)) = Clean(Target)
